@@ -117,4 +117,13 @@ def run(facts, rep, tier, ctx):
         for o in scr_e.obligations:
             if o["rule"] in ("R18.3", "R18.5"):
                 rep.ob("R11.11", o["fn"], o["key"].split("|")[2], o["ok"], o["detail"], o["loc"])
+    # R11.12 the walks that copy_dir / move_dir / remove_dir_all make list through the adapters, which rebuild every listed name with
+    # `filename()` (the part after the last '/', nothing else is a separator), and decide "absent" with the path type's exists() —
+    # the backend's answer for that path, the root included (C06 R06.7, C05 R05.2)
+    from . import c06 as _c06f, c05 as _c05k
+    _c06f.accessor_rules(facts, _c05k._P5(rep, "R11.12f"), D)
+    for w12 in (ws, World(facts, True)):
+        if w12.present():
+            from .c10 import _Prefixed as _Pf12
+            _c05k.is_kind_rules(facts, _c05k._P5(rep if not w12.asyncw else _Pf12(rep, "A"), "R11.12k"), w12, D)
     rep.assume("copy_dir/move_dir into the source's own subtree is excluded by the property")
